@@ -105,6 +105,16 @@ class UseIndex:
 ESCALATE_CALLS = ("nomt::store::Store::poison",)
 
 
+# functions whose Err arm may carry on with an alternative fallible operation (confirmed by reading; one reason each)
+FALLBACK_SITES = {
+    "nomt::bitbox::ht_file::resize_and_prealloc": "fallocate failure falls back to zero-filling the file with checked writes (resize_and_zero_file(..)?)",
+}
+# read-only probes whose failure selects a conservative default instead of being an I/O failure of the store
+PROBE_CALLS = {
+    "nomt::sys::linux::fs_check": "statfs probe that decides O_DIRECT / tmpfs handling; on failure the conservative setting is used",
+}
+
+
 def err_arm_escalates(body, sw_bb, local, pl):
     """the value matched at switch sw_bb is a Result; is its Err arm an escalation?  On every path from the Err
     arm to a return, one of: an error is returned (`_0 = Err(..)`, `?`), the thread panics, the store is
@@ -122,6 +132,9 @@ def err_arm_escalates(body, sw_bb, local, pl):
             return True, "no Err edge"
     if body.id.endswith("as core::ops::drop::Drop>::drop"):
         return True, "inside Drop (nothing to return to)"
+    for (db, di, dk, dobj) in body.defs().get(local, []):
+        if dk == "call" and (dobj.get("callee") or "") in PROBE_CALLS:
+            return True, "probe: " + PROBE_CALLS[dobj["callee"]]
     if not body.local_ty(0).startswith("core::result::Result<"):
         # the function cannot propagate an error: matching on the outcome and returning a value that depends on it
         # (a probe such as check_iou_permissions) is a way of reporting it
@@ -133,8 +146,9 @@ def err_arm_escalates(body, sw_bb, local, pl):
             c = tt.get("callee") or ""
             if c in ESCALATE_CALLS or (c.endswith("::store") and "atomic" in c):
                 esc.add(b)
-            # a fallback: the Err arm retries with another fallible I/O operation (itself subject to R1)
-            if is_io_result(body.place_ty(tt["dest"])) and not c.endswith("::from_residual"):
+            # a fallback: the Err arm retries with another fallible I/O operation (itself subject to R1).  Listed sites only
+            # (confirmed by reading): "some fallible call follows" would also accept carrying on as if nothing had failed.
+            if body.id in FALLBACK_SITES and is_io_result(body.place_ty(tt["dest"])) and not c.endswith("::from_residual"):
                 esc.add(b)
             # the error payload moved into a non-formatting call / channel / constructor
             for a in tt["args"]:
@@ -175,8 +189,40 @@ def err_arm_escalates(body, sw_bb, local, pl):
     rem = {b for b in range(body.n) if body.is_cleanup(b)} | esc
     reach = body.reachable([e for e in err_edges if e not in esc], rem)
     if reach & rets:
+        # classification by kind: `Err(e) if e.kind() == <one kind> => <not an error here>, Err(e) => <escalate>`.  The Err
+        # arm asks io::Error::kind() of THIS error and branches on it; one side of that branch escalates on every path.
+        for kb in sorted(reach):
+            tk = body.term(kb)
+            if tk["k"] != "call" or (tk.get("callee") or "") != "std::io::error::Error::kind" or not tk["args"]:
+                continue
+            if not any(("@Err" in "".join(str(x) for x in (st["rv"].get("pl", {}) or {}).get("p", []))) and st["rv"].get("pl", {}).get("l") == local for bb2 in reach for st in body.stmts(bb2) if st["k"] == "assign" and st["rv"]["k"] == "ref"):
+                continue
+            for sb in sorted(reach):
+                ts = body.term(sb)
+                if ts["k"] != "switch":
+                    continue
+                if not any(r.kind == "call" and r.bb == kb for r in _deep_call_roots(body, ts["d"])):
+                    continue
+                sides = body.succ(sb)
+                esc_sides = [x for x in sides if x in esc or not (body.reachable([x], rem) & rets)]
+                if esc_sides and len(esc_sides) < len(sides):
+                    return True, "error classified by kind at %s: one kind is handled as a non-error, every other error escalates" % tk.get("ln")
         return False, "a path from the Err arm reaches the end of the function"
     return True, "Err arm escalates"
+
+
+def _deep_call_roots(body, op, depth=0):
+    """call roots of a value, looking through comparison calls (`PartialEq::eq(&kind, &CONST)`) and discriminant reads"""
+    out = []
+    if depth > 3:
+        return out
+    for r in trace(body, op):
+        if r.kind == "call":
+            out.append(r)
+            if r.obj is not None and (str(r.what).endswith("::eq") or str(r.what).endswith("::ne")):
+                for a in r.obj.get("args", []):
+                    out.extend(_deep_call_roots(body, a, depth + 1))
+    return out
 
 
 def consumption(body, ui, local, fields=(), seen=None, depth=0):
